@@ -29,6 +29,9 @@ RULE = (
 RULE += (
     " Widening also swaps patterns / patternProperties keys for regexes using look-behind, look-ahead, named groups, back-references, lazy quantifiers and inline flags (all valid for Python's re)."
 )
+RULE += (
+    ' Round 9: an eighth of the schema nodes gets a keyword the vocabulary does not know whose NAME means something on the Python side (self, cls, args, kwargs, name, value, annotation, __init__, __class__, ...), with an arbitrary JSON value.'
+)
 ASSUMPTIONS = [
     "patterns come from a pool of valid Python regexes without nested quantifiers",
     "nesting depth <= 40 keeps the harness and the library far from the 1000-frame interpreter limit",
@@ -100,6 +103,11 @@ def wide_values(draw, depth=0):
     return draw(jv.json_values(max_leaves=5))
 
 
+UNKNOWN_KEYWORDS = ["self", "self", "cls", "args", "kwargs", "mcs", "name", "value", "property_", "state", "element", "elements",
+                    "x-vendor", "readOnly", "$comment", "__init__", "__class__", "__dict__", "annotation", "validators",
+                    "type_", "python", "source", "parent"]
+
+
 def widen(draw, schema, flags, depth=0):
     """Randomly replace parts of a schema with extreme variants (in place on a copy)."""
     if not isinstance(schema, dict) or depth > 6:
@@ -143,6 +151,11 @@ def widen(draw, schema, flags, depth=0):
         else:
             s.setdefault("dependencies", {}).setdefault(name, ["b"])
         flags.add("odd-required-name")
+    if draw(st.integers(0, 7)) == 0:
+        # a keyword the vocabulary does not know (any value is metaschema-valid there; it must be ignored) whose NAME
+        # means something on the Python side: parameter names, attribute names, dunders
+        s[draw(st.sampled_from(UNKNOWN_KEYWORDS))] = draw(st.sampled_from([1, "s", None, {}, [1], True, {"type": "nope"}]))
+        flags.add("unknown-keyword")
     if "enum" in s and draw(st.integers(0, 3)) == 0:
         s["enum"] = s["enum"] + [draw(st.sampled_from(EXTREME_NUMS + ODD_STRINGS[:8]))]
         flags.add("extreme-literal")
